@@ -166,25 +166,27 @@ Definition meta_identity (det : dict) : Prop :=
   dget det "publisher" = Some (vid meta_id) /\ dget det "publisher_authid" = None /\
   dget det "publisher_authrole" = Some (vstr "trusted").
 
-(** [a], [k] are the payload of a testament stored for an attached session,
-    whose publish options ask for disclosure *)
-Definition testament_of (r : realm) (a : list value) (k : dict) : Prop :=
+(** [a], [k] are the payload of a testament stored (in [r]) for a session
+    attached in [r] and no longer attached in [rf] (the state after the
+    step), whose publish options ask for disclosure *)
+Definition testament_of (r rf : realm) (a : list value) (k : dict) : Prop :=
   exists z zs dt ds t,
     find_session (r_clients r) z = Some zs /\ nget (r_testaments r) z = Some (dt, ds) /\ In t (dt ++ ds) /\
-    opt_bool (t_opts t) "disclose_me" = true /\ a = t_args t /\ k = t_kw t.
+    opt_bool (t_opts t) "disclose_me" = true /\ a = t_args t /\ k = t_kw t /\
+    find_session (r_clients rf) z = None.
 
-Definition meta_disclosure (r : realm) (y : N) (det : dict) (a : list value) (k : dict) : Prop :=
-  c_disclose (r_cfg r) = true /\ recv_ok r y /\ meta_identity det /\ testament_of r a k.
+Definition meta_disclosure (r rf : realm) (y : N) (det : dict) (a : list value) (k : dict) : Prop :=
+  c_disclose (r_cfg r) = true /\ recv_ok r y /\ meta_identity det /\ testament_of r rf a k.
 
-Definition ev_meta (r : realm) (o : list out) : Prop :=
-  forall y sub pid det a k, In (y, REvent sub pid det a k) o -> pub_keys det = true -> meta_disclosure r y det a k.
+Definition ev_meta (r rf : realm) (o : list out) : Prop :=
+  forall y sub pid det a k, In (y, REvent sub pid det a k) o -> pub_keys det = true -> meta_disclosure r rf y det a k.
 
-Lemma ev_meta_plain : forall r o, ev_plain o -> ev_meta r o.
-Proof. intros r o H y sub pid det a k Hin Hk. rewrite (H _ _ _ _ _ _ Hin) in Hk. discriminate. Qed.
-Lemma ev_meta_app : forall r a b, ev_meta r a -> ev_meta r b -> ev_meta r (a ++ b).
-Proof. intros r a b A B y sub pid det a0 k H. apply in_app_or in H. destruct H; eauto. Qed.
-Lemma ev_meta_nil : forall r, ev_meta r [].
-Proof. intros r. apply ev_meta_plain, ev_plain_nil. Qed.
+Lemma ev_meta_plain : forall r rf o, ev_plain o -> ev_meta r rf o.
+Proof. intros r rf o H y sub pid det a k Hin Hk. rewrite (H _ _ _ _ _ _ Hin) in Hk. discriminate. Qed.
+Lemma ev_meta_app : forall r rf a b, ev_meta r rf a -> ev_meta r rf b -> ev_meta r rf (a ++ b).
+Proof. intros r rf a b A B y sub pid det a0 k H. apply in_app_or in H. destruct H; eauto. Qed.
+Lemma ev_meta_nil : forall r rf, ev_meta r rf [].
+Proof. intros r rf. apply ev_meta_plain, ev_plain_nil. Qed.
 
 Record sub_st (r r' : realm) : Prop := {
   ss_cfg : r_cfg r' = r_cfg r;
@@ -209,12 +211,12 @@ Lemma sub_st_dealer : forall r r' d, sub_st r r' -> sub_st r (r_set_dealer r' d)
 Proof. intros r r' d [A B C D]. constructor; assumption. Qed.
 
 (** one publication of the meta session *)
-Lemma meta_publish_ev : forall r r' mp,
+Lemma meta_publish_ev : forall r rf r' mp,
     sub_st r r' ->
-    (opt_bool (mp_opts mp) "disclose_me" = true -> testament_of r (mp_args mp) (mp_kw mp)) ->
-    ev_meta r (snd (meta_publish r' mp)).
+    (opt_bool (mp_opts mp) "disclose_me" = true -> testament_of r rf (mp_args mp) (mp_kw mp)) ->
+    ev_meta r rf (snd (meta_publish r' mp)).
 Proof.
-  intros r r' mp S T y sub pid det a k Hin Hk. unfold meta_publish in Hin.
+  intros r rf r' mp S T y sub pid det a k Hin Hk. unfold meta_publish in Hin.
   pose proof (publish_ev (r_cfg r') (lookup r') (r_now r') (r_broker r') (r_pubgen r') (r_meta r') 0
                          (mp_opts mp) (mp_topic mp) (mp_args mp) (mp_kw mp) y sub pid det a k) as P.
   destruct (publish _ _ _ _ _ _ _ _ _ _ _) as [[b pg] o]. cbn [snd] in *.
@@ -230,18 +232,18 @@ Qed.
 Lemma meta_publish_sub_st : forall r r' mp, sub_st r r' -> sub_st r (fst (meta_publish r' mp)).
 Proof. intros r r' mp S. eapply sub_st_broker; [exact S|apply meta_publish_frame]. Qed.
 
-Lemma meta_publish_all_ev : forall mps r r',
+Lemma meta_publish_all_ev : forall mps r rf r',
     sub_st r r' ->
-    (forall mp, In mp mps -> opt_bool (mp_opts mp) "disclose_me" = true -> testament_of r (mp_args mp) (mp_kw mp)) ->
-    ev_meta r (snd (meta_publish_all r' mps)) /\ sub_st r (fst (meta_publish_all r' mps)).
+    (forall mp, In mp mps -> opt_bool (mp_opts mp) "disclose_me" = true -> testament_of r rf (mp_args mp) (mp_kw mp)) ->
+    ev_meta r rf (snd (meta_publish_all r' mps)) /\ sub_st r (fst (meta_publish_all r' mps)).
 Proof.
-  induction mps as [|mp mps IH]; intros r r' S T.
+  induction mps as [|mp mps IH]; intros r rf r' S T.
   - rewrite meta_publish_all_nil. split; [apply ev_meta_nil|exact S].
   - rewrite meta_publish_all_cons.
-    pose proof (meta_publish_ev r r' mp S (T mp (or_introl eq_refl))) as A.
+    pose proof (meta_publish_ev r rf r' mp S (T mp (or_introl eq_refl))) as A.
     pose proof (meta_publish_sub_st r r' mp S) as S1.
     destruct (meta_publish r' mp) as [r1 o1]. cbn [fst snd] in *.
-    destruct (IH r r1 S1 (fun m H => T m (or_intror H))) as [B S2].
+    destruct (IH r rf r1 S1 (fun m H => T m (or_intror H))) as [B S2].
     destruct (meta_publish_all r1 mps) as [r2 o2]. cbn [fst snd] in *.
     split; [now apply ev_meta_app|exact S2].
 Qed.
@@ -275,10 +277,14 @@ Qed.
 Lemma test_pubs_app : forall a b, test_pubs a ++ test_pubs b = test_pubs (a ++ b).
 Proof. intros. unfold test_pubs. now rewrite map_app. Qed.
 
-Lemma leave_ev : forall r r' sid,
-    sub_st r r' -> ev_meta r (snd (leave r' sid)) /\ sub_st r (fst (leave r' sid)).
+Lemma leave_gone : forall r sid, find_session (r_clients (fst (leave r sid))) sid = None.
+Proof. intros r sid. destruct (leave_frame r sid) as (_ & -> & _). apply find_del_same. Qed.
+
+Lemma leave_ev_gen : forall r rf r' sid,
+    sub_st r r' -> find_session (r_clients rf) sid = None ->
+    ev_meta r rf (snd (leave r' sid)) /\ sub_st r (fst (leave r' sid)).
 Proof.
-  intros r r' sid S.
+  intros r rf r' sid S Gone.
   destruct (find_session (r_clients r') sid) as [s|] eqn:F;
     [|rewrite (leave_absent r' sid F); split; [apply ev_meta_nil|exact S]].
   rewrite (leave_event_order r' sid s F). unfold leave_core.
@@ -300,7 +306,7 @@ Proof.
       cbn [r_testaments r_set_testaments r_set_clients] in H. apply A3.
       rewrite ngd in H. destruct (N.eqb z sid); [discriminate|exact H].
     - exact A4. }
-  destruct (meta_publish_all_ev (mps ++ testament_pubs r' sid ++ [on_leave_pub s]) r _ S4) as [M S5].
+  destruct (meta_publish_all_ev (mps ++ testament_pubs r' sid ++ [on_leave_pub s]) r rf _ S4) as [M S5].
   { intros mp Hin Ho. apply in_app_or in Hin. destruct Hin as [Hin|Hin].
     { rewrite (D3 mp Hin) in Ho. discriminate Ho. }
     apply in_app_or in Hin. destruct Hin as [Hin|[<-|[]]]; [|discriminate Ho].
@@ -308,24 +314,48 @@ Proof.
     rewrite test_pubs_app in Hin. unfold test_pubs in Hin. apply in_map_iff in Hin. destruct Hin as (t & <- & Hin).
     cbn [mp_opts mp_args mp_kw] in *.
     exists sid, s, dt, ds, t. split; [apply (ss_cl _ _ S); exact F|]. split; [apply (ss_ts _ _ S); exact Ht|].
-    split; [exact Hin|]. split; [exact Ho|]. split; reflexivity. }
+    split; [exact Hin|]. split; [exact Ho|]. split; [reflexivity|]. split; [reflexivity|exact Gone]. }
   destruct (meta_publish_all _ _) as [r5 o3]. cbn [fst snd] in *.
   split; [|exact S5]. apply ev_meta_app; [|exact M].
   apply ev_meta_plain. apply ev_plain_app; [apply noev_plain; exact D1|exact B].
 Qed.
 
-Lemma kill_sessions_ev : forall sids r r' g,
-    sub_st r r' -> is_ev (0, g) = false ->
-    ev_meta r (snd (kill_sessions r' sids g)) /\ sub_st r (fst (kill_sessions r' sids g)).
+Lemma leave_ev : forall r r' sid,
+    sub_st r r' -> ev_meta r (fst (leave r' sid)) (snd (leave r' sid)) /\ sub_st r (fst (leave r' sid)).
+Proof. intros r r' sid S. apply leave_ev_gen; [exact S|apply leave_gone]. Qed.
+
+(** a later state of the step has fewer clients: what is gone stays gone *)
+Lemma sub_st_gone : forall r r' z, sub_st r r' -> find_session (r_clients r) z = None -> find_session (r_clients r') z = None.
 Proof.
-  induction sids as [|sid sids IH]; intros r r' g S Hg.
+  intros r r' z S H. destruct (find_session (r_clients r') z) as [s|] eqn:E; [|reflexivity].
+  apply (ss_cl _ _ S) in E. congruence.
+Qed.
+
+Lemma kill_sessions_ev_gen : forall sids r rf r' g,
+    sub_st r r' -> is_ev (0, g) = false ->
+    (forall z, find_session (r_clients (fst (kill_sessions r' sids g))) z = None -> find_session (r_clients rf) z = None) ->
+    ev_meta r rf (snd (kill_sessions r' sids g)) /\ sub_st r (fst (kill_sessions r' sids g)).
+Proof.
+  induction sids as [|sid sids IH]; intros r rf r' g S Hg Hrf.
   - rewrite kill_sessions_nil. split; [apply ev_meta_nil|exact S].
-  - rewrite kill_sessions_cons. destruct (leave_ev r r' sid S) as [L S1].
+  - pose proof (leave_gone r' sid) as G1.
+    destruct (leave_ev r r' sid S) as [_ S1].
+    pose proof (fun Gone => leave_ev_gen r rf r' sid S Gone) as L.
+    rewrite kill_sessions_cons in Hrf |- *.
     destruct (leave r' sid) as [r1 o1]. cbn [fst snd] in *.
-    destruct (IH r r1 g S1 Hg) as [K S2]. destruct (kill_sessions r1 sids g) as [r2 o2]. cbn [fst snd] in *.
+    destruct (IH r1 (fst (kill_sessions r1 sids g)) r1 g (sub_st_refl r1 (ss_meta _ _ S1)) Hg (fun z H => H)) as [_ S12].
+    pose proof (IH r rf r1 g S1 Hg) as K.
+    destruct (kill_sessions r1 sids g) as [r2 o2]. cbn [fst snd] in *.
+    pose proof (sub_st_gone r1 r2 sid S12 G1) as G2.
+    destruct (L (Hrf sid G2)) as [Lv _]. destruct (K Hrf) as [Kv S2].
     split; [|exact S2]. change ((sid, g) :: o1 ++ o2) with ([(sid, g)] ++ (o1 ++ o2)).
     apply ev_meta_app; [apply ev_meta_plain, ev_plain_one; exact Hg|]. now apply ev_meta_app.
 Qed.
+
+Lemma kill_sessions_ev : forall sids r r' g,
+    sub_st r r' -> is_ev (0, g) = false ->
+    ev_meta r (fst (kill_sessions r' sids g)) (snd (kill_sessions r' sids g)) /\ sub_st r (fst (kill_sessions r' sids g)).
+Proof. intros sids r r' g S Hg. apply kill_sessions_ev_gen; auto. Qed.
 
 (** ** The meta session's answer to an INVOCATION *)
 Lemma meta_call_kills_same : forall r proc det args kw oracle sids g,
@@ -338,7 +368,8 @@ Qed.
 
 Lemma run_meta_invocation_ev : forall r r' invid regid det args kw oracle,
     sub_st r r' ->
-    ev_meta r (snd (run_meta_invocation r' [(meta_id, RInvocation invid regid det args kw)] oracle)).
+    ev_meta r (fst (run_meta_invocation r' [(meta_id, RInvocation invid regid det args kw)] oracle))
+              (snd (run_meta_invocation r' [(meta_id, RInvocation invid regid det args kw)] oracle)).
 Proof.
   intros r r' invid regid det args kw oracle S. unfold run_meta_invocation. rewrite N.eqb_refl. cbn [negb].
   destruct (nget (r_metaprocs r') regid) as [proc|].
